@@ -357,7 +357,7 @@ fn split_case(ctx: &Ctx, shard: usize, index: u64, rep: &mut Report) {
             d.decode(&hist);
         }
         let (src, data, _delivered) = CountRead::new(&pic[..split]);
-        let mut src = Some(src);
+        let mut src = Some(src.with_chunk(*rng.pick(&[usize::MAX, 1, 3, 5, 4096])));
         let r = catch(|| {
             let mut rd = H263Reader::from_source(src.take().unwrap());
             let o1 = crate::sut::outcome_of(catch(|| d.st.decode_next_picture(&mut rd)));
